@@ -214,7 +214,18 @@ pub fn end_to_end(rep: &Report, requests: &AtomicU64) {
             ("transfer-cookie-under-another-secret", 3, "Claimed_A", Some(e2e_cookie(5, b"some-other-secret", "127.0.0.1", "Cookie_B")), true),
             ("transfer-valid-cookie", 3, "Claimed_A", Some(e2e_cookie(5, b"c12-cookie-secret", "127.0.0.1", "Cookie_B")), false),
         ];
-        for (label, intent, name, cookie, expect_request) in cases {
+        // claimed names a router might be tempted to tidy up (control characters, blanks at the ends, letter case,
+        // composed and decomposed accents, full-width letters, percent signs): the request asks about the name as
+        // claimed - or the router turns such a client away without asking anybody; it never asks about another name
+        let mut cases: Vec<(String, i32, String, Option<Vec<u8>>, bool, bool)> = cases.into_iter().map(|(l, i, n, c, e)| (l.to_string(), i, n.to_string(), c, e, false)).collect();
+        for (k, n) in ["Hydro\nfin", "a\tb", "a\u{0}b", "a\u{7f}b", "a\u{85}b", "a\rb", " lead", "trail ", "MiXeD_Case", "\u{ff21}\u{ff22}", "e\u{301}", "\u{e9}", "%41%0a", "a+b c", "\u{202e}abc", "\u{feff}bom"].iter().enumerate() {
+            cases.push((format!("login-untidy-name-{k}"), 2, n.to_string(), None, true, true));
+            if k % 4 == 0 {
+                cases.push((format!("transfer-untidy-name-{k}-stale-cookie"), 3, n.to_string(), Some(e2e_cookie(30_000, b"c12-cookie-secret", "127.0.0.1", "Cookie_B")), true, true));
+            }
+        }
+        for (label, intent, name, cookie, expect_request, may_refuse) in cases {
+            let (label, name) = (label.as_str(), name.as_str());
             log.lock().unwrap().clear();
             let Ok(mut c) = McClient::connect(addr, None).await else {
                 rep.violation(Violation { key: "e2e-connect-failed".into(), text: label.into(), replay: json!({"e2e": label}), weight: 0 });
@@ -231,6 +242,7 @@ pub fn end_to_end(rep: &Report, requests: &AtomicU64) {
             let replay = json!({"e2e": label, "name": name});
             match (expect_request, seen.as_slice()) {
                 (false, []) => {}
+                (true, []) if may_refuse && out.stage != Stage::LoginSuccessReceived => {}
                 (false, many) => rep.violation(Violation { key: format!("e2e-request-although-cookie-vouches:{label}"), text: format!("{many:?}"), replay, weight: 1 }),
                 (true, [line]) => {
                     requests.fetch_add(1, Ordering::Relaxed);
